@@ -83,7 +83,7 @@ def run(tier, seed, res):
     with_reduce = os.environ.get("C22_INCLUDE_REDUCE", "") == "1"
     groups = [(1, 2), (2, 1), (2, 3), (3, 2), (4, 1), (4, 2), (1, 8), (3, 4)] if quick else \
         [(P, T) for P in (1, 2, 3, 4) for T in (1, 2, 4, 8)] * 2
-    per = 60 if quick else 260
+    per = 60 if quick else 600
     batches, ex1, ex2 = [], 0, 0
     for i, (P, T) in enumerate(groups):
         gen = mb.generate(case(P, allow_empty, with_reduce), per, seed * 1000 + i)
@@ -96,7 +96,7 @@ def run(tier, seed, res):
     mb.run_batches(PROP, b, batches, res, "cases", timeout=300 if quick else 1800, max_parallel=4,
                    tq_ms=5000 if quick else 20000)
     bg.join()
-    floor = 40 if quick else 1000
+    floor = 40 if quick else 3000
     if not res.violations and res.distinct_nontrivial < floor:
         res.inconclusive = "only %d non-trivial cases executed (floor %d)" % (res.distinct_nontrivial, floor)
 
